@@ -150,7 +150,9 @@ def build(scn):
         ind.calculate()
         i = init
         for k in scn.get("chunks", []):
-            ind.append(mk_candles(stream[i : i + k]))
+            cs = mk_candles(stream[i : i + k])
+            # a live feed hands over one bare Candle at a time, not a list
+            ind.append(cs[0] if (len(cs) == 1 and scn.get("bare_single")) else cs)
             i += k
     except Exception as e:
         return ind, e
@@ -231,7 +233,8 @@ def case(rng, idx, params):
         n = need + rng.randint(25, 60)
     stream, tf, fill = gen_family(rng, family, n)
     (init, chunks), shape = gen.gen_schedule(rng, len(stream))
-    scn = {"prop": "C09", "kind": kind, "kwargs": kw, "tf": tf, "fill": fill, "family": family, "stream": stream, "init": init, "chunks": chunks}
+    scn = {"prop": "C09", "kind": kind, "kwargs": kw, "tf": tf, "fill": fill, "family": family, "stream": stream, "init": init, "chunks": chunks,
+           "bare_single": rng.random() < 0.5}
     viol, info = check(scn)
     if viol:
         sig = viol["signature"]
